@@ -199,6 +199,12 @@ def bidiagonalize_real_matrix_pair_with_symmetric_products(
     rank = dim
     while rank > 0 and tolerance.all_near_zero(base_diag[rank - 1, rank - 1], atol=atol):
         rank -= 1
+    # Do not cut through a cluster of nearly equal singular values: the factors of the SVD are
+    # arbitrary within such a cluster, so each of the two fixup strategies needs it whole.
+    while 0 < rank < dim and np.isclose(
+        base_diag[rank - 1, rank - 1], base_diag[rank, rank], rtol=rtol, atol=atol
+    ):
+        rank -= 1
     base_diag = base_diag[:rank, :rank]
 
     # Try diagonalizing the second matrix with the same factors as the first.
